@@ -128,12 +128,12 @@ theorem proto_isArg (cfg : KCfg) (n : Neg) (p : Proto) (u num : Bool) (hwf : (AO
   cases p with
   | num d =>
     simp only [AOpt.wf, Bool.and_eq_true] at hwf
-    have hd := canonNum_digits hwf.1
+    have hd := canonNum_digits hwf.1.1
     have : (Proto.num d).uname u num = d := by
       unfold Proto.uname Proto.kname
       cases u <;> simp [upper_digits hd]
     rw [this]
-    exact ⟨canonNum_isArg hwf.1, canonNum_isArg hwf.1⟩
+    exact ⟨canonNum_isArg hwf.1.1, canonNum_isArg hwf.1.1⟩
   | tcp => obtain ⟨names⟩ := cfg; cases u <;> cases num <;> cases names <;> decide
   | udp => obtain ⟨names⟩ := cfg; cases u <;> cases num <;> cases names <;> decide
   | icmp => obtain ⟨names⟩ := cfg; cases u <;> cases num <;> cases names <;> decide
